@@ -16,10 +16,10 @@ import (
 
 type c06Cell struct {
 	Front  int    `json:"front"`
-	Path   string `json:"path"`           // cold | syncS | bgS | waiter | skipF
-	Caller string `json:"caller"`         // none | 0 | 10s | 1h | -1s
-	Cancel string `json:"cancel"`         // never | before | after | deadline
-	Same   bool   `json:"same,omitempty"` // ObserveMutability on and the builder returns a value equal to the stale one
+	Path   string `json:"path"`            // cold | syncS | bgS | waiter | skipF
+	Caller string `json:"caller"`          // none | 0 | 10s | 1h | -1s
+	Cancel string `json:"cancel"`          // never | before | after | deadline
+	Same   bool   `json:"same,omitempty"`  // ObserveMutability on and the builder returns a value equal to the stale one
 	Chain  bool   `json:"chain,omitempty"` // the builder's WithTTL calls are nested (each on the context returned by the previous one)
 }
 
